@@ -32,8 +32,9 @@ EXPLANATION = ('Lookup keys of the zip, VPK and in-memory backends proved equal 
 TRUSTED = ['str.casefold as an uninterpreted idempotent function', 'zipfile / VPK container I/O (C13)',
            'os.path.normpath on relative slash-separated names without "." / ".." components is the identity up to '
            'repeated separators (bounded tier uses such names)',
-           'VirtualFileSystem.__init__ builds the table with the same _clean_path (one comprehension; covered by the '
-           'bounded differential, not by a contract)']
+           'VirtualFileSystem.__init__: the comprehension is checked by shape (key = _clean_path(stored name), value = '
+           '(stored name, data), no filter), not executed symbolically; later keys overwriting earlier equal ones is '
+           'Python dict semantics']
 UNVERIFIED = ['walk_folder of every backend (bounded only)', 'host file-system case sensitivity for RawFileSystem']
 
 from pyvc.builtins_model import fold_fn, replace_all   # noqa: E402
@@ -338,6 +339,71 @@ def priority_members_are_searched_first_others_last_and_nothing_is_dropped(CHAIN
     return search_order_is(CHAIN, NEW, OLD0, OLD1) if PRIO else search_order_is(CHAIN, OLD0, OLD1, NEW)
 
 
+# ---- every use of the in-memory table goes through the one key function (constructor, lookups, opens)
+def _shape(name, good, bad=False, line=0, note=''):
+    r = smt.shape(name, good, bad, line, note)
+    r.replay_fn = _witness
+    return r
+
+
+def _is_clean_call(node):
+    import ast
+    return (isinstance(node, ast.Call) and ast.unparse(node.func) in ('self._clean_path', 'cls._clean_path')
+            and len(node.args) == 1 and not node.keywords)
+
+
+def static_virtual_table(repo):
+    """VirtualFileSystem: the table is built with keys `self._clean_path(<stored name>)` and every subscript / `in`
+    test on it uses `self._clean_path(<parameter>)` (directly or through a local assigned from such a call). With the
+    contracts above this makes constructor, existence test, lookup and both opens agree on one key function.
+    A key that is visibly something else is a violation; a restructured access is undecided."""
+    import ast
+    from pyvc import extract
+    cls = extract.load(M).classdef('VirtualFileSystem')
+    out, n = [], 0
+    for fn in [f for f in cls.body if isinstance(f, ast.FunctionDef)]:
+        cleaned = {nd.targets[0].id for nd in ast.walk(fn) if isinstance(nd, ast.Assign) and len(nd.targets) == 1
+                   and isinstance(nd.targets[0], ast.Name) and _is_clean_call(nd.value)}
+        params = {a.arg for a in fn.args.args} - {'self', 'cls'}
+        keys = []
+        for nd in ast.walk(fn):
+            if isinstance(nd, ast.Subscript) and ast.unparse(nd.value) == 'self._mapping' \
+                    and isinstance(nd.ctx, ast.Load):
+                keys.append((nd.slice, nd.lineno))
+            elif isinstance(nd, ast.Compare) and len(nd.ops) == 1 and isinstance(nd.ops[0], (ast.In, ast.NotIn)) \
+                    and ast.unparse(nd.comparators[0]) == 'self._mapping':
+                keys.append((nd.left, nd.lineno))
+        for key, line in keys:
+            n += 1
+            good = _is_clean_call(key) or (isinstance(key, ast.Name) and key.id in cleaned)
+            # visibly bypassing the key function: a parameter (or a str method applied to one) used as the key
+            base = key
+            while isinstance(base, ast.Call) and isinstance(base.func, ast.Attribute) and not _is_clean_call(base):
+                base = base.func.value
+            bad = not good and isinstance(base, ast.Name) and base.id in params and base.id not in cleaned
+            out.append(_shape(f'virtual.{fn.name}.table_key_is_clean_path@{line}', good, bad, line, ast.unparse(key)[:80]))
+    out.append(_shape('virtual.table_accesses_found', n >= 4, False, cls.lineno, f'{n} keyed accesses'))
+    init = [f for f in cls.body if isinstance(f, ast.FunctionDef) and f.name == '__init__']
+    comps = [nd for f in init for nd in ast.walk(f) if isinstance(nd, ast.Assign)
+             and ast.unparse(nd.targets[0]) == 'self._mapping' and isinstance(nd.value, ast.DictComp)]
+    if len(comps) == 1:
+        dc = comps[0].value
+        tgt = dc.generators[0].target
+        stored = tgt.elts[0].id if isinstance(tgt, ast.Tuple) and isinstance(tgt.elts[0], ast.Name) else None
+        good = (_is_clean_call(dc.key) and isinstance(dc.key.args[0], ast.Name) and dc.key.args[0].id == stored
+                and isinstance(dc.value, ast.Tuple) and len(dc.value.elts) == 2
+                and isinstance(dc.value.elts[0], ast.Name) and dc.value.elts[0].id == stored
+                and len(dc.generators) == 1 and not dc.generators[0].ifs)
+        bad = not _is_clean_call(dc.key) and not isinstance(dc.key, ast.Name)
+        out.append(_shape('virtual.init.table_maps_clean_path_of_each_name_to_that_name_and_its_data', good, bad,
+                          comps[0].lineno, ast.unparse(dc.key)[:80]))
+    else:
+        out.append(_shape('virtual.init.table_maps_clean_path_of_each_name_to_that_name_and_its_data', False, False,
+                          cls.lineno, 'constructor restructured'))
+    return out
+
+
+STATIC = [static_virtual_table]
 PROOFS = [zip_exists, zip_get, vpk_exists, vpk_get, virt_exists, virt_get, chain_get, chain_add]
 
 
@@ -686,8 +752,19 @@ MUTATIONS = [
          old="            raise FileNotFoundError(name) from None\n        return File(self, filename, filename)",
          new="            raise FileNotFoundError(name) from None\n        return File(self, name, name)",
          expect='VirtualFileSystem._get_file'),
+    dict(name='virtual_open_bin_keys_by_folded_request', file='filesys.py',
+         old="            filename, data = self._mapping[self._clean_path(name)]\n        except KeyError:\n            raise FileNotFoundError(name) from None\n        if isinstance(data, str):\n            data = data.encode",
+         new="            filename, data = self._mapping[name.casefold()]\n        except KeyError:\n            raise FileNotFoundError(name) from None\n        if isinstance(data, str):\n            data = data.encode",
+         expect='virtual.open_bin'),
+    dict(name='virtual_init_keys_without_normpath', file='filesys.py',
+         old="            self._clean_path(filename): (filename, data)",
+         new="            filename.replace('\\\\', '/').casefold(): (filename, data)",
+         expect='virtual.init'),
 ]
 HARMLESS = [
+    dict(name='virtual_exists_key_in_a_local', file='filesys.py',
+         old="        return self._clean_path(name) in self._mapping",
+         new="        key = self._clean_path(name)\n        return key in self._mapping"),
     dict(name='add_sys_moves_a_present_member_instead_of_listing_it_twice', file='filesys.py',
          old="        if priority:\n            self.systems.insert(0, (sys, prefix))",
          new="        if priority:\n            if (sys, prefix) in self.systems:\n                self.systems.remove((sys, prefix))\n            self.systems.insert(0, (sys, prefix))"),
